@@ -235,5 +235,36 @@ theorem agreeAt_of_nonDegenerate (d : Dim α) (x : α) (hm : d.KnotsMono)
     · rw [show (d.nknots : Int) - d.order - 1 = (d.naxes : Int) by omega, e2] at hnd
       exact hnd rfl
 
+/-! ## necessity: an `(order+1)`-fold knot at or above `knots[naxes]` separates the two conventions -/
+
+/-- If `x ≥ knots[naxes]` is a knot of multiplicity `order+1` (`knots[a] = … = knots[a+order] = x`) with
+a larger knot after it, basis function `a` is `1` for `grideval` and `0` for the pointwise convention. -/
+theorem basis_differs_at_full_knot (d : Dim α) (x : α) (hm : d.KnotsMono) (a : Nat)
+    (ha : a + d.order + 1 < d.nknots) (h1 : d.knots a = x) (h2 : d.knots ((a : Int) + d.order) = x)
+    (h3 : x < d.knots ((a : Int) + d.order + 1)) (hge : d.knots d.naxes ≤ x) :
+    Bind (indR d.knots x) d.knots x d.order a = 1 ∧ Bsel d x 0 a = 0 := by
+  obtain ⟨r, l⟩ := Bind_full_left d.knots x d.order a
+    (fun i j hi hij hj => hm i j (by omega) hij (by omega)) h1 h2 h3
+  refine ⟨r, ?_⟩
+  have hlt : ¬ (A.lt x (d.knots d.naxes) = true) := by
+    rw [L.lt_iff]; exact not_lt.mpr hge
+  simp only [Bsel, Dind, selInd, if_neg hlt]
+  exact l
+
+/-- one-dimensional sum against a unit coefficient vector picks one entry of the row -/
+theorem specSum_1d_unit (s : Nat) (fs : List α) (a : Nat) (ha : a < fs.length) (hs : 0 < s) :
+    specSum (fun p : Int => if p = (a : Int) * s then (A.one : α) else A.zero) [(s, fs)] A.one 0
+      = fs.getD a 0 := by
+  simp only [specSum, specSumRow_eq_sum, L.mul_eq, L.one_eq, L.zero_eq, one_mul, zero_add]
+  rw [Finset.sum_eq_single a]
+  · simp
+  · intro b _ hb
+    have : ¬ ((b : Int) * s = (a : Int) * s) := by
+      intro h
+      have hs' : ((s : Nat) : Int) ≠ 0 := by omega
+      exact hb (by exact_mod_cast mul_right_cancel₀ hs' h)
+    simp [this]
+  · intro h; exact absurd (Finset.mem_range.mpr ha) h
+
 end
 end PsV
